@@ -5,6 +5,8 @@ import json, os
 CLAIMED = {
  "C01": ("exploration", "3.C01", "Seeded search over fault profiles x transfer plans on the real async client + real simulator; complete fault-free (start,length) triangle in thorough. Evidence over explored seeds, not proof.",
          "SimLoop/SimNet faithful to asyncio/UDP semantics; datagrams never corrupted; spa block constant during a transfer; quiescence between transfers."),
+ "C06": ("exploration", "3.C06", "Seeded search over caller plans x reply-fault profiles x timing tables on the full real client; history oracle over calls, sends, deliveries and queue pops (bounded fresh attempts, reply attribution, duration bound, mutual exclusion, FIFO service, completion, gates). Evidence over explored seeds.",
+         "SimLoop FIFO/deadline-order faithful to asyncio; gate window defined by the library's own 2 x ping frequency (+1 s and injected stall); stale same-verb replies are indistinguishable at protocol level and counted by a probe."),
 }
 PENDING = {}
 NA = {
